@@ -33,6 +33,9 @@ type r1Context struct {
 	chain string
 	key   string
 	kind  string // entry kind, for evidence
+	// recvd: channel fields a receive from which precedes the call of this context on the caller's
+	// path (the happens-before edge of a publication by close carries into the callee)
+	recvd []*types.Var
 }
 
 type r1Access struct {
@@ -109,6 +112,12 @@ func (r *r1) enqueue(x *r1Context) {
 		b = append(b, o.Name()+"=fresh")
 	}
 	sort.Strings(b)
+	var rc []string
+	for _, v := range x.recvd {
+		rc = append(rc, "<-"+core.FieldName(v))
+	}
+	sort.Strings(rc)
+	b = append(b, rc...)
 	x.key = name + " {" + lockKey(x.locks) + "} [" + strings.Join(b, " ") + "]"
 	if r.seen[x.key] {
 		return
@@ -246,7 +255,10 @@ func isFreshExpr(e ast.Expr, info *types.Info) bool {
 func (r *r1) walkContext(x *r1Context) {
 	c := r.c
 	r.nContexts++
-	cfg := &core.Config{EmitAccess: true}
+	cfg := &core.Config{EmitAccess: true, Follow: func(fn *types.Func) bool {
+		d := c.Prog.Decl(fn)
+		return d != nil && c.InScope(RelPkg(d.Pkg.PkgPath)) && transfersLock(d)
+	}}
 	e := core.Entry{Decl: x.decl, Lit: x.lit, Pkg: x.pkg, Outer: x.outer, Locks: x.locks, Binds: x.binds, Name: x.key}
 	outer := x.outer
 	if x.decl != nil {
@@ -267,6 +279,7 @@ func (r *r1) walkContext(x *r1Context) {
 		}
 		escaped := map[*types.Var]bool{}
 		created := map[types.Object]bool{}
+		recvd := append([]*types.Var(nil), x.recvd...)
 		var entryFrame *core.Frame
 		for i, ev := range p.Events {
 			if i == 0 {
@@ -325,11 +338,16 @@ func (r *r1) walkContext(x *r1Context) {
 				} else if ev.Val.Kind == core.VMethodVal {
 					// a method value created under a lockset: the method may be called under it
 					if d := c.Prog.Decl(ev.Val.Fn); d != nil && c.InScope(RelPkg(d.Pkg.PkgPath)) {
-						r.enqueue(&r1Context{decl: d, locks: ev.Locks, chain: x.chain + " → method value " + core.FuncName(d.Obj) + " @" + c.Prog.Pos(ev.Pos), kind: "method-value"})
+						locks := ev.Locks
+						if methodValueRunsLater(p.Events[i+1:], ev.Node) {
+							// handed to go / time.AfterFunc: it runs on another goroutine, with no lock of this path
+							locks = nil
+						}
+						r.enqueue(&r1Context{decl: d, locks: locks, chain: x.chain + " → method value " + core.FuncName(d.Obj) + " @" + c.Prog.Pos(ev.Pos), kind: "method-value"})
 					}
 				}
 			case core.KCall, core.KGo:
-				r.handleCall(ev, x, fresh, created, info, ei)
+				r.handleCall(ev, x, fresh, created, info, ei, recvd)
 			case core.KReturn:
 				if ev.Frame == entryFrame && ei != nil {
 					for _, res := range ev.Results {
@@ -365,6 +383,17 @@ func (r *r1) walkContext(x *r1Context) {
 					r.hyg("R11a", x, ev, "releases "+core.LockName(ev.Lock)+" on a path on which it is not held", p)
 				}
 			case core.KRecv, core.KSend:
+				if ev.Kind == core.KRecv && (!ev.NonBlocking || ev.InSelect) {
+					if v := varOf(ev.Chan, ev.Frame); v != nil && v.IsField() {
+						dup := false
+						for _, o := range recvd {
+							dup = dup || o == v.Origin()
+						}
+						if !dup {
+							recvd = append(append([]*types.Var(nil), recvd...), v.Origin())
+						}
+					}
+				}
 				if !ev.NonBlocking && len(ev.Locks) > 0 {
 					r.hyg("R11d", x, ev, "blocking channel operation on "+core.ExprString(ev.Chan)+" while holding "+core.LockSetString(ev.Locks), p)
 				}
@@ -484,7 +513,7 @@ func (r *r1) hyg(rule string, x *r1Context, ev *core.Event, msg string, p *core.
 }
 
 // handleCall processes an opaque call or a go statement seen on a path.
-func (r *r1) handleCall(ev *core.Event, x *r1Context, fresh, created map[types.Object]bool, info *types.Info, ei *core.EscapeInfo) {
+func (r *r1) handleCall(ev *core.Event, x *r1Context, fresh, created map[types.Object]bool, info *types.Info, ei *core.EscapeInfo, recvd []*types.Var) {
 	c := r.c
 	call := ev.Call
 	if ev.Builtin != "" {
@@ -557,6 +586,7 @@ func (r *r1) handleCall(ev *core.Event, x *r1Context, fresh, created map[types.O
 		nx.kind = "go"
 	} else {
 		nx.kind = "call"
+		nx.recvd = recvd
 	}
 	variadic := false
 	if calleeDecl != nil {
@@ -627,9 +657,12 @@ func (r *r1) handleCall(ev *core.Event, x *r1Context, fresh, created map[types.O
 		// the same call without the constant arguments, so that code a constant switches off today
 		// (restartRoutineLocked(false, …)) is judged as well
 		hasConst := false
-		gen := &r1Context{decl: nx.decl, locks: nx.locks, fresh: nx.fresh, kind: nx.kind, chain: nx.chain + " (any arguments)", binds: map[types.Object]core.Value{}}
+		gen := &r1Context{decl: nx.decl, locks: nx.locks, fresh: nx.fresh, kind: nx.kind, recvd: nx.recvd, chain: nx.chain + " (any arguments)", binds: map[types.Object]core.Value{}}
 		for o, v := range nx.binds {
-			if v.Kind == core.VBool {
+			// a constant that decides whether the callee takes a lock itself ("if lock { mtx.Lock() }")
+			// is part of the calling convention and stays bound: "lock=false and the caller does
+			// not hold the lock" is not a call the program makes
+			if v.Kind == core.VBool && !paramGuardsLockOp(calleeDecl, o) {
 				hasConst = true
 				continue
 			}
@@ -770,4 +803,152 @@ func (r *r1) returnsFresh(d *core.FuncDecl, depth int) bool {
 	ast.Inspect(d.Decl.Body, visit)
 	r.freshFn[d] = res && anyRet
 	return res && anyRet
+}
+
+// methodValueRunsLater: the method value (node) is an argument of a go statement or of time.AfterFunc /
+// context.AfterFunc further along the path.
+func methodValueRunsLater(rest []*core.Event, node ast.Node) bool {
+	for _, ev := range rest {
+		if (ev.Kind != core.KCall && ev.Kind != core.KGo) || ev.Call == nil {
+			continue
+		}
+		isArg := false
+		for _, a := range ev.Call.Args {
+			if unparen(a) == node {
+				isArg = true
+			}
+		}
+		if ev.Kind == core.KGo && unparen(ev.Call.Fun) == node {
+			return true
+		}
+		if !isArg {
+			continue
+		}
+		if ev.Kind == core.KGo {
+			return true
+		}
+		if ev.Callee != nil && ev.Callee.Pkg() != nil && ev.Callee.Name() == "AfterFunc" &&
+			(ev.Callee.Pkg().Path() == "time" || ev.Callee.Pkg().Path() == "context") {
+			return true
+		}
+		return false
+	}
+	return false
+}
+
+// paramGuardsLockOp: some if-statement of the function whose condition mentions the parameter contains a
+// lock operation in one of its branches.
+func paramGuardsLockOp(d *core.FuncDecl, param types.Object) bool {
+	if d == nil || d.Decl.Body == nil || param == nil {
+		return false
+	}
+	info := d.Pkg.TypesInfo
+	found := false
+	ast.Inspect(d.Decl.Body, func(n ast.Node) bool {
+		is, ok := n.(*ast.IfStmt)
+		if !ok || found {
+			return !found
+		}
+		mentions := false
+		ast.Inspect(is.Cond, func(m ast.Node) bool {
+			if id, ok := m.(*ast.Ident); ok && info.Uses[id] == param {
+				mentions = true
+			}
+			return true
+		})
+		if !mentions {
+			return true
+		}
+		check := func(b ast.Node) {
+			ast.Inspect(b, func(m ast.Node) bool {
+				call, ok := m.(*ast.CallExpr)
+				if !ok {
+					return true
+				}
+				if sel, ok := unparen(call.Fun).(*ast.SelectorExpr); ok {
+					if tv, ok := info.Types[sel.X]; ok && core.LockKindOf(tv.Type) != core.NotLock {
+						found = true
+					}
+				}
+				return true
+			})
+		}
+		check(is.Body)
+		if is.Else != nil {
+			check(is.Else)
+		}
+		return true
+	})
+	return found
+}
+
+// transfersLock: the declared function releases a lock it does not unconditionally acquire itself
+// (hand-off: "unlocks mtx before returning; the caller locked it"), or acquires one it never releases
+// (a lock wrapper). Such a function is walked in place by R1, because the caller's lockset after the call
+// differs from the one before it.
+func transfersLock(d *core.FuncDecl) bool {
+	if d == nil || d.Decl.Body == nil {
+		return false
+	}
+	info := d.Pkg.TypesInfo
+	type cnt struct{ acqTop, acqAny, rel int }
+	per := map[string]*cnt{}
+	var visit func(n ast.Node, top bool)
+	note := func(call *ast.CallExpr, top bool) {
+		sel, ok := unparen(call.Fun).(*ast.SelectorExpr)
+		if !ok {
+			return
+		}
+		tv, ok := info.Types[sel.X]
+		if !ok {
+			return
+		}
+		k := core.LockKindOf(tv.Type)
+		if k != core.SyncMutex && k != core.SyncRWMutex {
+			return
+		}
+		key := types.ExprString(sel.X)
+		c := per[key]
+		if c == nil {
+			c = &cnt{}
+			per[key] = c
+		}
+		switch sel.Sel.Name {
+		case "Lock", "RLock":
+			c.acqAny++
+			if top {
+				c.acqTop++
+			}
+		case "TryLock", "TryRLock":
+			c.acqAny++
+		case "Unlock", "RUnlock":
+			c.rel++
+		}
+	}
+	visit = func(n ast.Node, top bool) {
+		ast.Inspect(n, func(m ast.Node) bool {
+			switch x := m.(type) {
+			case *ast.FuncLit:
+				return false
+			case *ast.IfStmt, *ast.ForStmt, *ast.RangeStmt, *ast.SwitchStmt, *ast.TypeSwitchStmt, *ast.SelectStmt:
+				if top && m != n {
+					visit(m, false)
+					return false
+				}
+			case *ast.CallExpr:
+				note(x, top)
+			}
+			return true
+		})
+	}
+	visit(d.Decl.Body, true)
+	for _, c := range per {
+		if c.rel > 0 && c.acqTop == 0 {
+			return true
+		}
+		if c.acqAny > 0 && c.rel == 0 {
+			return true
+		}
+	}
+	return false
 }
